@@ -225,6 +225,14 @@ pub fn run(r: &mut Runner) -> &'static str {
     r.assumptions.push("a hang inside a parser would surface as a watchdog timeout (exit 2), not as a violation; TLV iteration is bounded by a step cap".into());
     let n = r.n(300_000, 8_000_000);
     r.random("c03.surface", n, 200, &gen_case, &judge);
+    // the same check over chains of related inputs judged back to back on one thread (history independence)
+    let n = r.n(30000, 600000);
+    r.random("c03.chains", n, 260, &|t| crate::gen::gen_chain(t, &gen_case), &|c: &crate::engine::Chain, st: &mut Stats| {
+        for x in &c.0 {
+            judge(x, st)?;
+        }
+        Ok(())
+    });
 
     // all strings of <= 3 tokens over an alphabet rich in CR / multi-byte characters, as &str
     let alpha: &[&str] = &["PROXY", " ", "UNKNOWN", "TCP4", "\r", "\n", "\u{e9}", "\u{20ac}", "\u{1f600}", "1.2.3.4", "1", "\r\n", "x"];
